@@ -329,7 +329,12 @@ def gen_cases(rng, n, tier):
         elif i < n_procs + n_pheno:
             out.append({"kind": "model", "spec": gen_pheno_spec(rng), "seed": seed})
         else:
-            out.append({"kind": "model", "spec": gen_model_spec(rng), "seed": seed})
+            spec = gen_model_spec(rng)
+            # Statements.subs relabels compartments in the iteration order of a set (finding D2), which depends on the
+            # hash seed of *this* process; it is exercised only in `procs` cases, whose interpreters have fixed seeds,
+            # so that the verdict and the evidence of a run are reproducible
+            spec["post"] = []
+            out.append({"kind": "model", "spec": spec, "seed": seed})
     return out
 
 
@@ -340,7 +345,6 @@ def corpus_cases():
         {"kind": "model", "spec": deriv_witness_spec(), "seed": 3},                    # derivatives are stringified
         {"kind": "model", "spec": {"kind": "pheno", "transforms": []}, "seed": 4},
         {"kind": "model", "spec": {"kind": "pheno", "transforms": ["foabs", "periph", "transit2", "joint"]}, "seed": 5},
-        {"kind": "model", "spec": hashseed_witness_spec(), "seed": 6},
         {"kind": "model", "spec": dict(f4_witness_spec(), dv_str=True), "seed": 7},    # str keys of dependent_variables
     ]
 
